@@ -339,7 +339,7 @@ class C19(Monitor):
         hs = core.hooked()
         fails = []
         for k, ax in enumerate("xyz"):
-            if hs[ax] is None or abs(hs[ax] - B.pos[k]) > 1e-9 * max(1.0, abs(B.pos[k])):
+            if hs[ax] is None or abs(hs[ax] - B.pos[k]) > 1e-6 * max(1.0, abs(B.pos[k])):
                 fails.append(("handler-ignores-last-value", "tracked %s = %r, the reference (last value per letter) reaches %r"
                               % (ax.upper(), hs[ax], B.pos[k])))
         if abs(hs["e"] - B.e) > 1e-9 * max(1.0, abs(B.e)):
